@@ -11,7 +11,7 @@ Everything transcendental in C11 is NOT covered (see C11.meta.json level_note). 
 2  specs/dist/DiscreteLaws.tla - Bernoulli, Uniform, Triangle, Binomial on rational parameters: exact
    rational reference functions, law-consistency theorems (R1), tables replayed into distuv (R2).
 3  specs/dist/SamplerProtocol.tla - accept/reject protocols of sampleuv / samplemv (Rejection, Importance,
-   MetropolisHastings with BurnIn/Rate, IID, SampleUniformWeighted, LatinHypercube) with scripted
+   MetropolisHastings with BurnIn/Rate, IID, SampleUniformWeighted, LatinHypercube; distmat.UniformPermutation) with scripted
    targets, proposals and variates: counting invariants (R1), scripts replayed into the samplers (R2).
 """
 import json
@@ -40,7 +40,7 @@ def run_heap(ctx, binary, thorough):
     # ---- R2: every transition, replayed ----
     plan = [(1, 3, 3), (2, 3, 3), (3, 3, 3), (4, 3, 3), (5, 2, 3), (6, 1, 2), (7, 1, 2)]
     if thorough:
-        plan = [(1, 3, 3), (2, 3, 4), (3, 3, 4), (4, 3, 4), (5, 3, 4), (6, 2, 3), (7, 2, 2), (8, 1, 2)]
+        plan = [(1, 3, 3), (2, 3, 4), (3, 3, 4), (4, 3, 4), (5, 3, 4), (6, 2, 3), (6, 3, 3), (7, 2, 2), (8, 2, 2)]
     for kind in ("weighted", "categorical"):
         for n, w, nall in plan:
             cases = ctx.gen("dist/WeightedHeap.tla", "dist/WeightedHeap.cfg", subst=heap_subst(n, w, kind, True, salt, nall),
